@@ -188,3 +188,17 @@ package actionlint
 //@ func (*RuleExpression).checkMatrix
 //@   loop "range m.Include.Combinations":
 //@     body_calls [C06] (*ObjectType).Loose iff combi.Expression != nil && ty != nil && !istype(ty, "*ObjectType")
+
+// C03/C12: the placeholder scanner decides by its own search for "${{" (an unterminated placeholder is
+// diagnosed by the lexer, not skipped); when it reports success with a list, no "${{" is left in the
+// text it has not scanned (index is the result of strings.Index)
+//@ spec index(s: string, sub: string): int
+//@ func (*RuleExpression).checkExprsIn
+//@   forbid_call [C03 C12] ContainsExpression (*String).ContainsExpression
+//@   at_return [C03 C12] result1 && result0 != nil ==> index(s, "${{") == 0 - 1
+//@   loop "for":
+//@     invariant [C03] ts != nil
+
+// C06: the default value of a typed workflow_call input is only rejected for a type that is known
+//@ func (*RuleExpression).VisitWorkflowPre
+//@   at_call [C06] (*RuleBase).Errorf: len(ts) == 1 ==> !istype(ts[0].ty, "AnyType")
